@@ -1,3 +1,166 @@
-import GambitV.Spec.Taxonomy
+import GambitV.Lemmas.Taxonomy
+
+/-!
+# C03 — default-mode classification: prediction, next taxon, monotonicity in the distance
+
+Statements only (helper lemmas live in `Lemmas/Taxonomy.lean`).  All theorems quantify over
+arbitrary forests (parent pointers need not even be acyclic), taxa, distances and distance lists.
+-/
 namespace GambitV.C03
+open GambitV
+
+/-- 1. `matching_taxon` returns the most specific threshold-bearing taxon of the lineage whose
+threshold is not smaller than the distance. -/
+theorem matchingTaxon_eq_spec (F : Forest) (t d : Nat) : matchingTaxon F t d = predictedSpec F t d := by
+  unfold matchingTaxon predictedSpec thrLineage
+  exact (find?_filter_of_imp _ _ (fun a h => covers_thr_isSome h) _).symm
+
+/-- 2. `np.argmin`: a genome at the minimum distance, and the first such. -/
+theorem argminFirst_spec (ds : List Nat) (h : ds ≠ []) :
+    argminFirst ds < ds.length ∧ (∀ x ∈ ds, ds.getD (argminFirst ds) 0 ≤ x) ∧
+      (∀ j, j < argminFirst ds → ds.getD (argminFirst ds) 0 < ds.getD j 0) :=
+  argminFirst_getD_spec ds h
+
+/-- 3. `GenomeMatch.next_taxon` (the loop) computes the stated next taxon. -/
+theorem next_eq_spec (F : Forest) (t d : Nat) : nextTaxon F t d = nextSpec F t d := by
+  unfold nextTaxon nextSpec
+  rw [nextWalk_eq]
+  simp only [thrLineage, Option.or_none]
+  generalize List.findIdx? _ _ = o
+  rcases o with _ | _ | k <;> rfl
+
+/-- 4a. No next taxon when the prediction is the genome's own (first threshold-bearing) taxon. -/
+theorem next_none_of_own (F : Forest) (t d p : Nat) (hh : (thrLineage F t).head? = some p)
+    (hp : predictedSpec F t d = some p) : nextSpec F t d = none := by
+  unfold predictedSpec at hp
+  unfold nextSpec
+  have hc := List.find?_some hp
+  cases hT : thrLineage F t with
+  | nil => simp [hT] at hh
+  | cons a rest =>
+    simp only [hT, List.head?_cons, Option.some.injEq] at hh
+    subst hh
+    simp [List.findIdx?_cons, hc]
+
+/-- 4b. With no prediction, the next taxon is the topmost threshold-bearing one. -/
+theorem next_top_of_none (F : Forest) (t d : Nat) (hp : predictedSpec F t d = none) :
+    nextSpec F t d = (thrLineage F t).getLast? := by
+  unfold predictedSpec at hp
+  unfold nextSpec
+  have : (thrLineage F t).findIdx? (fun a => F.covers a d) = none := by
+    rw [List.findIdx?_eq_none_iff]
+    intro x hx
+    have := (List.find?_eq_none.mp hp) x hx
+    simpa using this
+  simp only [this]
+
+/-- 4c. The next taxon is threshold-bearing, in the lineage, does not cover the distance, and sits
+immediately below the prediction among the threshold-bearing taxa of the lineage. -/
+theorem next_props (F : Forest) (t d x : Nat) (hx : nextSpec F t d = some x) :
+    x ∈ thrLineage F t ∧ F.covers x d = false ∧
+      (∀ p, predictedSpec F t d = some p →
+        ∃ i, (thrLineage F t)[i]? = some x ∧ (thrLineage F t)[i + 1]? = some p) := by
+  unfold nextSpec at hx
+  unfold predictedSpec
+  generalize thrLineage F t = T at hx ⊢
+  cases hf : T.findIdx? (fun a => F.covers a d) with
+  | none =>
+    simp only [hf] at hx
+    have hall := List.findIdx?_eq_none_iff.mp hf
+    have hmem := List.mem_of_getLast? hx
+    refine ⟨hmem, hall x hmem, ?_⟩
+    intro p hp
+    have := hall p (List.mem_of_find?_eq_some hp)
+    simp [List.find?_some hp] at this
+  | some k =>
+    obtain ⟨hk, hck, hlt⟩ := List.findIdx?_eq_some_iff_getElem.mp hf
+    cases k with
+    | zero => simp [hf] at hx
+    | succ i =>
+      simp only [hf] at hx
+      obtain ⟨hi, hxi⟩ := List.getElem?_eq_some_iff.mp hx
+      refine ⟨List.mem_of_getElem? hx, ?_, ?_⟩
+      · have := hlt i (by omega)
+        rw [hxi] at this
+        simpa using this
+      · intro p hp
+        refine ⟨i, hx, ?_⟩
+        obtain ⟨_, j, hj, hjp, hjlt⟩ := List.find?_eq_some_iff_getElem.mp hp
+        have hji : j = i + 1 := by
+          rcases Nat.lt_trichotomy j (i + 1) with h | h | h
+          · have := hlt j h
+            rw [hjp] at this
+            exact absurd (List.find?_some hp) this
+          · exact h
+          · have := hjlt (i + 1) h
+            simp [hck] at this
+        subst hji
+        rw [List.getElem?_eq_getElem hj, hjp]
+
+/-- 5. A distance exactly equal to the threshold matches. -/
+theorem threshold_equality_matches (F : Forest) (a th : Nat) (h : F.thrOf a = some th) :
+    F.covers a th = true := by
+  simp [Forest.covers, h]
+
+/-- 6. Increasing the distance can only keep or coarsen a prediction, never make it more specific;
+in particular a prediction at `d'` implies one at every `d ≤ d'`. -/
+theorem coarsen_mono (F : Forest) (t : Nat) (d d' : Nat) (h : d ≤ d') (p' : Nat)
+    (hp' : predictedSpec F t d' = some p') :
+    ∃ (p i j : Nat), predictedSpec F t d = some p ∧ i ≤ j ∧ (F.lineage t)[i]? = some p ∧
+      (F.lineage t)[j]? = some p' := by
+  rw [← matchingTaxon_eq_spec] at hp' ⊢
+  unfold matchingTaxon at hp' ⊢
+  exact find?_weaken (fun a => F.covers a d) (fun a => F.covers a d')
+    (fun a ha => covers_mono h ha) _ p' hp'
+
+/-- 7. The primary match is the closest genome exactly when something is predicted. -/
+theorem primary_iff (F : Forest) (gtax ds : List Nat) :
+    (classifyDefault F gtax ds).primary =
+      (if (classifyDefault F gtax ds).predicted.isSome then some (classifyDefault F gtax ds).closest
+       else none) := rfl
+
+theorem reportable_eq_spec (F : Forest) (p : Option Nat) : reportable F p = reportSpec F p := by
+  cases p <;> rfl
+
+/-- 8. The default-mode result satisfies the whole statement. -/
+theorem classifyDefault_ok (F : Forest) (gtax ds : List Nat) (h : ds ≠ []) :
+    let r := classifyDefault F gtax ds
+    defaultOk F gtax ds r.closest r.predicted r.primary r.next (reportable F r.predicted) = true := by
+  intro r
+  obtain ⟨h1, h2, _⟩ := argminFirst_spec ds h
+  have hc : r.closest = argminFirst ds := rfl
+  have hp : r.predicted = predictedSpec F (gtax.getD (argminFirst ds) 0) (ds.getD (argminFirst ds) 0) :=
+    matchingTaxon_eq_spec _ _ _
+  have hn : r.next = nextSpec F (gtax.getD (argminFirst ds) 0) (ds.getD (argminFirst ds) 0) :=
+    next_eq_spec _ _ _
+  have hpr : r.primary = (if r.predicted.isSome then some r.closest else none) := rfl
+  unfold defaultOk
+  simp only [Bool.and_eq_true, decide_eq_true_eq, List.all_eq_true, beq_iff_eq]
+  rw [hc]
+  refine ⟨⟨⟨⟨⟨h1, h2⟩, hp⟩, ?_⟩, hn⟩, reportable_eq_spec _ _⟩
+  rw [hpr, hc]
+
+/-! ### 9. Non-vacuity: lineage `U(0, no thr) → S1(1, thr 3) → G(2, thr 5)`, genome on `U` -/
+
+def exF : Forest :=
+  { parent := [some 1, some 2, none], thr := [none, some 3, some 5], report := [true, true, true] }
+
+example : exF.lineage 0 = [0, 1, 2] := by decide
+example : predictedSpec exF 0 2 = some 1 ∧ nextSpec exF 0 2 = none := by decide
+example : predictedSpec exF 0 4 = some 2 ∧ nextSpec exF 0 4 = some 1 := by decide
+example : predictedSpec exF 0 6 = none ∧ nextSpec exF 0 6 = some 2 := by decide
+example : matchingTaxon exF 0 2 = some 1 ∧ nextTaxon exF 0 2 = none := by decide
+example : matchingTaxon exF 0 4 = some 2 ∧ nextTaxon exF 0 4 = some 1 := by decide
+example : matchingTaxon exF 0 6 = none ∧ nextTaxon exF 0 6 = some 2 := by decide
+/-- threshold equality matches: d = 3 still predicts `S1` -/
+example : predictedSpec exF 0 3 = some 1 := by decide
+/-- the hypotheses of `coarsen_mono` are satisfiable, with a strict coarsening -/
+example : predictedSpec exF 0 4 = some 2 ∧ predictedSpec exF 0 2 = some 1 ∧
+    (exF.lineage 0)[1]? = some 1 ∧ (exF.lineage 0)[2]? = some 2 := by decide
+example : (classifyDefault exF [2, 0, 1] [9, 2, 2]).closest = 1 ∧
+    (classifyDefault exF [2, 0, 1] [9, 2, 2]).predicted = some 1 ∧
+    (classifyDefault exF [2, 0, 1] [9, 2, 2]).primary = some 1 ∧
+    (classifyDefault exF [2, 0, 1] [9, 2, 2]).next = none := by decide
+example : argminFirst [4, 1, 3, 1] = 1 := by decide
+
 end GambitV.C03
